@@ -505,7 +505,7 @@ func runFault(sc scenario, k, of int, mode string) (*faultResult, []*Obs, error)
 	n := 0
 	var cmu sync.Mutex
 	armed := true
-	SetDBHook(p.e.DSN, func(_ context.Context, kind CallKind, q string, after bool) error {
+	SetDBHook(p.e.DSN, func(callCtx context.Context, kind CallKind, q string, after bool) error {
 		if kind == KRollback {
 			return nil
 		}
@@ -520,7 +520,19 @@ func runFault(sc scenario, k, of int, mode string) (*faultResult, []*Obs, error)
 				cmu.Unlock()
 				if hit {
 					cancelCtx()
-					time.Sleep(20 * time.Millisecond) // database/sql's watcher rolls the transaction back
+					// the cancellation has to REACH the transaction before the handler goes on to
+					// COMMIT (through gRPC it travels as a stream reset): wait until the context
+					// the statement ran under is done -- from then on database/sql refuses the
+					// commit and its watcher rolls back. A fixed sleep here was a false alarm
+					// under load (the server committed, the client saw Canceled).
+					select {
+					case <-callCtx.Done():
+						time.Sleep(5 * time.Millisecond)
+					case <-time.After(3 * time.Second):
+						cmu.Lock()
+						r.Call += " (cancellation not delivered)"
+						cmu.Unlock()
+					}
 				}
 			}
 			return nil
